@@ -515,6 +515,9 @@ class Interp:
             return TYPE_SIZES[t]
         if t in RECORD_SIZES:
             return RECORD_SIZES[t]
+        ar = self.anon_record(t)
+        if ar is not None:
+            return ar["size"]
         if t.startswith("enum ") or t in self.P.enums or (t.endswith("_t") and t[:-2] in self.P.enums):
             return 4
         return None
@@ -610,7 +613,20 @@ class Interp:
         for o, v in sv.fields.items():
             self.heap[(p.base, p.off + o)] = v
 
+    def anon_record(self, t):
+        """the record behind `struct (unnamed struct at FILE:LINE:COL)`"""
+        m = re.search(r"\((?:unnamed|anonymous)[^)]*? at (.+?):(\d+):\d+\)", t or "")
+        if not m:
+            return None
+        for _u, r in self.P.records_all:
+            if r.get("file") == m.group(1) and r.get("line") == int(m.group(2)):
+                return r
+        return None
+
     def record_of(self, t):
+        r = self.anon_record(t)
+        if r is not None:
+            return r
         name = clean_type(t or "").replace("struct ", "").replace("const ", "").strip()
         for cand in (name, name[:-2] if name.endswith("_t") else None):
             if cand and cand in self.P.records:
@@ -700,6 +716,8 @@ class Interp:
 
     def field_offset(self, n):
         rec = self.P.records.get(n.get("rec"))
+        if "<anon>" in (n.get("rec") or "") and n.c and n.c[0] is not None:
+            rec = self.anon_record(n.c[0].strip().t or n.c[0].t) or rec
         if not rec:
             return None
         for f in rec["fields"]:
